@@ -12,7 +12,7 @@ CLAIMED = {
  "C09": ("exploration", "W", "seeded operation histories with injected callback panics (Default, or_insert_with closure, Drop) and mismatching type arguments against a reference typed map; drop counters", "5.C09"),
  "C17": ("exploration", "W", "deterministic simulation: meta-table histories (registrations with repeats, get/get_mut, iter/iter_mut advanced step by step with guards kept alive, address-changing cast) by 1-4 tasks against a reference registration list + borrow model", "5.C17"),
  "C07": ("exploration", "S", "deterministic simulation: batch window vs conflicting outer windows under hold/max-overlap schedules; inner dispatches re-checked with the C01-C04 oracles", "5.C07"),
- "C11": ("exploration", "S", "deterministic simulation: rendezvous of all group heads of a stage on a pool with exactly enough workers; exact deadlock detection, no timeouts", "5.C11"),
+ "C11": ("exploration", "S", "deterministic simulation: rendezvous of all group heads (or of arbitrary members of several groups, with a panic in a group that does not take part) of a stage on a pool with exactly enough workers; exact deadlock detection", "5.C11"),
  "C12": ("exploration", "S", "deterministic simulation: task identity, start time and order of thread-local systems recorded in the event history under seeded schedules", "5.C12"),
  "C13": ("exploration", "S", "deterministic simulation of the lifecycle (setup / remove / overwrite / setup again / dispatches incl. panicking ones / dispose) against a reference world and per-system lifecycle counters", "5.C13"),
  "C15": ("exploration", "S", "deterministic simulation: the caller is a simulated task issuing dispatch/running/wait/world/... at scheduler-chosen instants; blocking accessors run the real mpsc::recv through the detach protocol; oracle evaluated at the instant each accessor returns", "5.C15"),
@@ -64,6 +64,7 @@ def main():
 DEFAULT_TEXT="Seeded search over generated registration sequences, schedules and pool sizes; every execution is exactly repeatable from (seed, scenario, choice trace). A clean batch is evidence, not proof; the systematic hold-runs measure the executor's complete may-overlap relation for each generated plan."
 DEFAULT_NOTE="Trusted: the detsim scheduler, the stand-in pool's worker-slot model (an over-approximation of rayon's system-level interleavings, DESIGN.md 2.2), the harness systems and oracles. shred's own code, atomic_refcell, ahash, arrayvec and smallvec run for real."
 LEVEL_TEXT={}
-NOTE={}
+MIRI_NOTE=" Thorough tier in addition: the same generated plans on plain threads under Miri's seeded scheduler (16 processes, one Miri seed each; stand-in pool in pass-through mode): data-race detector and aliasing model as additional oracles."
+NOTE={p: DEFAULT_NOTE+MIRI_NOTE for p in ("C01","C04","C07","C12","C14","C15")}
 if __name__=="__main__":
     main()
